@@ -256,11 +256,24 @@ class Atom:
 
     def z3(self, tr):
         zc = tr.zcache
-        zp = zc.get(self.p)
-        if zp is None:
-            zp = self.p.z3(tr.zvars)
-            zc[self.p] = zp
-        return OPS[self.op](zp)
+        za = zc.get(self.key)
+        if za is None:
+            zp = zc.get(self.p)
+            if zp is None:
+                zp = self.p.z3(tr.zvars)
+                zc[self.p] = zp
+            za = OPS[self.op](zp)
+            zc[self.key] = za
+        return za
+
+    def z3neg(self, tr):
+        zc = tr.zcache
+        k = (self.p, self.op, "not")
+        za = zc.get(k)
+        if za is None:
+            za = z3.Not(self.z3(tr))
+            zc[k] = za
+        return za
 
     def pretty(self, names=None):
         return f"{self.p.pretty(names)} {self.op} 0"
@@ -452,7 +465,7 @@ class Tracer:
     def pc_z3(self, decisions=None):
         out = []
         for a, tk in self.decisions if decisions is None else decisions:
-            out.append(a.z3(self) if tk in (True, None) else z3.Not(a.z3(self)))
+            out.append(a.z3(self) if tk in (True, None) else a.z3neg(self))
         return out
 
     def model_env(self, m, n=None):
@@ -774,8 +787,9 @@ class Sym:
         return bool(self != 0)
 
     def __float__(self):
-        # concretisation point (reached only from C code / unshimmed modules)
-        if not self.is_concrete() and TR is not None:
+        # concretisation point (reached only from C code / unshimmed modules); allowed where
+        # the caller discards the result (argument validation `float(x)` as a statement)
+        if not self.is_concrete() and TR is not None and not _discarded_float_call():
             TR.concretized += 1
         return float(self.c)
 
@@ -794,6 +808,28 @@ class Sym:
         nm = TR.names if TR else None
         s = self.n.pretty(nm)
         return s if self.d is None else f"({s})/({self.d.pretty(nm)})"
+
+
+_DISCARD_RE = None
+_discard_cache = {}
+
+
+def _discarded_float_call():
+    import linecache
+    import re
+    import sys
+
+    global _DISCARD_RE
+    if _DISCARD_RE is None:
+        _DISCARD_RE = re.compile(r"^float\([\w\.\[\]]+\)\s*(#.*)?$")
+    f = sys._getframe(2)
+    key = (f.f_code.co_filename, f.f_lineno)
+    r = _discard_cache.get(key)
+    if r is None:
+        line = linecache.getline(*key).strip()
+        r = bool(_DISCARD_RE.match(line))
+        _discard_cache[key] = r
+    return r
 
 
 def demote(x):
